@@ -1,9 +1,40 @@
 (* C11 Compaction and snapshot installation
-   Full-strength statement: C11 (see DESIGN.md section 7) (Cluster/Statements.v). Proved so far: the theorems below; what is
-   not yet proved is decided on every run by the lock-step co-simulation (model = implementation on every
-   explored schedule) together with the monitors run on the implementation's own observations. *)
-From RaftV Require Import Cluster.Statements Proofs.RVSpec Proofs.AESpec Proofs.SnapSpec Proofs.ChunkSpec.
+   Full-strength statement: C11 (see DESIGN.md section 7). Proved at cluster level for EVERY schedule (snapshots,
+   InstallSnapshot, membership changes, crashes, restarts): C11_applied_index_and_boundary_never_move_backwards,
+   and C11_commit_index_moves_backwards_only_by_a_conflicting_snapshot (the exact characterisation of one step).
+   "never moves the commit index backwards" at full strength is FALSE of the model:
+   C11_commit_index_monotone_refuted_by_D6 (the restore path of InstallSnapshot sets commitIndex :=
+   lastIncludedIndex even when that is below the commit index; reachable through the open finding D6, where a
+   snapshot of a rival leader conflicts with the committed zone of the receiver; unreachable when log matching
+   holds for snapshots, which is not proved). The rest is decided on every run by the lock-step co-simulation
+   together with the monitors run on the implementation's own observations. *)
+From RaftV Require Import Cluster.World Cluster.Statements Proofs.RVSpec Proofs.AESpec Proofs.SnapSpec Proofs.ChunkSpec.
+From RaftV Require Import Proofs.IndexMono.
 Open Scope N_scope.
+
+(* cluster level, EVERY schedule (snapshots, InstallSnapshot, membership changes, crashes and restarts of other nodes
+   included): as long as node id is not crashed or restarted, its applied index and its snapshot boundary never
+   move backwards *)
+Theorem C11_applied_index_and_boundary_never_move_backwards : forall ids boot et ld ls1 ls2 id, no_reset id ls2 = true ->
+  let w1 := run (init_world ids boot et ld) ls1 in let w2 := run w1 ls2 in
+  forall n2, In n2 (w_nodes w2) -> n_id n2 = id -> exists n1, In n1 (w_nodes w1) /\ n_id n1 = id /\
+    n_applied n1 <= n_applied n2 /\ n_lii n1 <= n_lii n2.
+Proof. exact run_applied_lii_mono. Qed.
+Print Assumptions C11_applied_index_and_boundary_never_move_backwards.
+
+(* one step, every world, every label: the commit index, the applied index and the snapshot boundary of a node do not
+   move backwards, unless the node is crashed / restarted, or it installs (restore path) a snapshot whose index lies
+   strictly between its applied index and its commit index and whose last entry is not the one in its log *)
+Theorem C11_commit_index_moves_backwards_only_by_a_conflicting_snapshot : forall w l n', In n' (w_nodes (step w l)) ->
+  exists n, In n (w_nodes w) /\ n_id n' = n_id n /\
+            (mono3 n n' \/ reset_label l (n_id n) \/ install_jump w l n n').
+Proof. exact step_index_mono. Qed.
+Print Assumptions C11_commit_index_moves_backwards_only_by_a_conflicting_snapshot.
+
+(* and that case is reachable when membership changes (open finding D6): the full statement is refuted *)
+Theorem C11_commit_index_monotone_refuted_by_D6 : ~ index_mono_statement.
+Proof. exact index_mono_refuted_by_D6. Qed.
+Print Assumptions C11_commit_index_monotone_refuted_by_D6.
 
 (* becomeFollower (every term change, every step-down) never touches the commit index, the applied index, the
    snapshot boundary, the stored snapshots, the state machine or its apply history *)
